@@ -158,7 +158,9 @@ def run(ctx):
     # ---------------- (2) orientation identities (state merging) ----------------------------------
     go = ctx.tlc_graph("TmatrixProc", "TmatrixProc_orient.cfg", constants={"MaxSteps": 2 if quick else 3})
     det = hp.detector_grid(6, 0.35)
-    dpts = detector_points(theta=np.array([0.15, 0.5, 0.9, 1.1]), phi=np.array([0.4, 1.9, 3.3, 5.6]), r=500.0)
+    # generic azimuths and the exact ones a pixel row or column through the particle produces
+    dpts = detector_points(theta=np.array([0.15, 0.5, 0.9, 1.1, 0.8, 0.3, 0.6, 0.7, 1.0]),
+                           phi=np.array([0.4, 1.9, 3.3, 5.6, math.pi, math.pi, 0.0, math.pi / 2, 3 * math.pi / 2]), r=500.0)
     kw = dict(medium_index=NMED, illum_wavelen=WL, illum_polarization=(1, 0), theory=Tmatrix())
 
     def rot_of(c):
@@ -226,7 +228,10 @@ def run(ctx):
             s_m = calc_scat_matrix(d, sph, theory=Mie(), **okw).values
             eq = Spheroid(n=n, r=(r, r), rotation=(0.3, 0.7, 1.9), center=(0, 0, 0))
             f_e = calc_field(d, eq, illum_polarization=(1, 0), theory=Tmatrix(), **okw).values
-            evs = [("sphere_field_vs_mie", rel(f_t, f_m), "Tol_tm_sphere"),
+            eq_rev = Spheroid(n=n, r=(r, r), rotation=(0.3, math.pi, 1.9), center=(0, 0, 0))   # axis against the beam
+            f_r = calc_field(d, eq_rev, illum_polarization=(1, 0), theory=Tmatrix(), **okw).values
+            evs = [("equal_axes_spheroid_reversed_vs_sphere", rel(f_r, f_t), "Tol_tm_sphere"),
+                   ("sphere_field_vs_mie", rel(f_t, f_m), "Tol_tm_sphere"),
                    ("sphere_smatrix_vs_mie", rel(s_t, s_m), "Tol_tm_sphere"),
                    ("equal_axes_spheroid_vs_sphere", rel(f_e, f_t), "Tol_tm_sphere")]
             if t % 3 == 0:
